@@ -70,7 +70,22 @@ claim("C14",
       "trusted: TLC, float decoding; inversion premise: some joint degree positive in every topology",
       T_TLC, "DESIGN.md 4 C14")
 
+claim("C15",
+      "The semantics is the percolation PROCESS (every edge decided independently); TLC enumerates all 2^|E| configurations of a motif, builds the integer coefficient table of the exact expectation and model-checks total probability and the evaluator-cache machine (shared motif names are a deviation that must fail). The real automated_equation is called with formal indeterminates (phi = p, distinct u_v) so that it returns its polynomial; TLC compares every coefficient for every connected graph on <= 5 (thorough 6-7) vertices x every focal vertex, relabelled cliques/cycles, and along interleaved query histories on ONE evaluator with numeric calls in between",
+      "trusted: TLC, the 80-line exact polynomial class (integral floats accepted, anything else raises), motif names distinct per motif",
+      "TLA+ spec + TLC; exact polynomial injection into the implementation, coefficients judged by TLC", "DESIGN.md 4 C15")
+claim("C16",
+      "clique_equation (distinct neighbour indeterminates) and chordless_cycle_equation are injected with indeterminates and compared coefficient by coefficient with the TLC-enumerated expectation (tau <= 5/6, cycles <= 7/9); Q and QQ equal TLC's brute-force count of connected labelled graphs for all n <= 5/6 and all k; Q modulo five primes equals a TLC-built modular table (component-of-vertex-1 recursion, validated against brute force for n <= 5) for all n <= 9/12 and all k; number_of_connected_graphs equals TLC's brute force for every graph on <= 4 vertices, every subset, every k",
+      "trusted: TLC; values of Q for n > 6 are distinguished only up to the product of five 16-bit primes (~2^77)",
+      "TLA+ spec + TLC; exact polynomial injection and integer/modular equality judged by TLC", "DESIGN.md 4 C16")
+claim("C17",
+      "TLC model-checks the message update in the exponent domain at phi = 1 under EVERY update order (chaotic iteration): on tree-like covers every quiescent table is the unique fixed point and is reached; on cyclic covers the fixed point is not unique (deviation cfg). The real MessagePassing is run with every read/write of its message table recorded; TLC validates every update at every phi (exactly the other members' other motifs, each once; right key written; all pairs initialised to 1/2 and updated; final average over each vertex's motifs), recomputes every written value exactly at phi in {0, 1} (exponents) and, at phi = 1/2, every update whose inputs are still at the start value against the exact motif expectation (dyadic rational from the C15 coefficient table); plus bit-exact history independence, bounds/zero/monotonicity on phi grids and 300-vs-301 sweep agreement",
+      "trusted: TLC; equality with the fixed point at interior phi is compositional (validated bookkeeping + exact motif expectation (C15) + convergence to 1e-5), not recomputed; table observed through the _H_tau attribute",
+      T_TLC, "DESIGN.md 4 C17")
+claim("C18",
+      "bond_percolate is walked through the whole tree of its per-edge uniform draws on the aligned grid (phi = a/b) for every graph on <= 4 vertices and stars with <= 6 leaves; TLC judges the exact distribution of the returned value against independent retention (count of leaves with result r = sum over keep-sets with largest component r of a^|S|(b-a)^(|E|-|S|)), multiples of 1/N, range, phi = 0 / 1, and that the input graph incl. attributes is untouched; seeded runs to 30 vertices for the range clauses",
+      "trusted: TLC, CPython random.random() reached through the oracle",
+      "TLA+ spec + TLC; exhaustive RNG decision-tree enumeration of the implementation judged by TLC", "DESIGN.md 4 C18")
+
 _pending = "no check built yet in this round; planned (DESIGN.md 4)"
-for p in ["C15","C16","C17","C18"]:
-    NOT_APPLICABLE[p] = _pending
 NOT_APPLICABLE["C19"] = "numerical accuracy of four stateless real-valued functions (exp, zeta, polylog): no state, no transitions, TLC has neither reals nor transcendental functions (DESIGN.md 5)"
